@@ -319,9 +319,51 @@ def _shared_target(doc: dict) -> str | None:
     return None
 
 
+_OV_GOOD = {"name": "zzov", "in": "query", "schema": {"type": "string"}}
+_OV_BAD = {"name": "zzov", "in": "query", "schema": {"type": "array"}}
+_METHODS = ("get", "put", "post", "delete", "options", "head", "patch", "trace")
+EXTRA_KINDS = ["shares_ref_then_bad", "bad_sibling_method", "bad_overridden_pathitem_param", "bad_inline_name_collision"]
+
+
+def _clean_for(doc: dict, kind: str, position: int) -> dict:
+    """The healthy document a bad piece is compared against (the document itself unless the bad piece needs healthy
+    company that has to be present on both sides)."""
+    if kind == "bad_overridden_pathitem_param":
+        d = copy.deepcopy(doc)
+        paths = list(d.get("paths", {}).items())
+        if paths:
+            pth, item = paths[position % len(paths)]
+            for m in _METHODS:
+                if isinstance(item.get(m), dict):
+                    item[m].setdefault("parameters", []).append(copy.deepcopy(_OV_GOOD))  # every operation overrides it
+        return d
+    if kind == "bad_inline_name_collision":
+        d = copy.deepcopy(doc)
+        comps = d.setdefault("components", {}).setdefault("schemas", {})
+        comps["ZzBadPieceInner"] = {"type": "object", "properties": {"x": {"type": "integer"}}}
+        comps["ZzUsesInner"] = {"type": "object", "properties": {"i": {"$ref": "#/components/schemas/ZzBadPieceInner"}}}
+        return d
+    return doc
+
+
 def _with_bad(doc: dict, kind: str, position: int, dependant: bool) -> dict:
-    d = copy.deepcopy(doc)
+    d = copy.deepcopy(_clean_for(doc, kind, position))
     comps = d.setdefault("components", {}).setdefault("schemas", {})
+    if kind == "bad_overridden_pathitem_param":
+        # an unparseable parameter at path-item level which every operation of the path validly re-declares: by the
+        # override rule no operation depends on it
+        paths = list(d.get("paths", {}).items())
+        if paths:
+            pth, item = paths[position % len(paths)]
+            item.setdefault("parameters", []).append(copy.deepcopy(_OV_BAD))
+        return d
+    if kind == "bad_inline_name_collision":
+        # the inline model of `inner` would be called ZzBadPieceInner, a name a healthy component already has
+        items = list(comps.items())
+        new = [("ZzBadPiece", {"type": "object", "properties": {"inner": {"type": "object", "properties": {"y": {"type": "string"}}}}})]
+        pos = position % (len(items) + 1)
+        d["components"]["schemas"] = dict(items[:pos] + new + items[pos:])
+        return d
     if kind == "bad_sibling_method":
         paths = list(d.get("paths", {}).items())
         if paths:
@@ -358,7 +400,7 @@ def _with_bad(doc: dict, kind: str, position: int, dependant: bool) -> dict:
 def bad_piece_one(doc: dict, kind: str, position: int, dependant: bool) -> list[str]:
     root = gen.scratch("verif-bad-")
     try:
-        e0, p0 = gen.generate(doc, root, "sk_clean")
+        e0, p0 = gen.generate(_clean_for(doc, kind, position), root, "sk_clean")
         bad = _with_bad(doc, kind, position, dependant)
         e1, p1 = gen.generate(bad, root, "sk_bad")
         if not p1.exists():
@@ -366,7 +408,7 @@ def bad_piece_one(doc: dict, kind: str, position: int, dependant: bool) -> list[
         f0 = {k: v.replace(b"sk_clean", b"PKG") for k, v in gen.tree_files(p0).items()}
         f1 = {k: v.replace(b"sk_bad", b"PKG") for k, v in gen.tree_files(p1).items()}
         probs = []
-        if len(e1) <= len(e0):
+        if len(e1) <= len(e0) and kind != "bad_overridden_pathitem_param":  # (an overridden parameter is never looked at)
             probs.append("no additional diagnostic for the bad piece")
         for k, v in f0.items():
             if k.endswith("__init__.py"):
@@ -392,11 +434,11 @@ def bad_pieces(tier: str = "quick", known: list | None = None, **_: Any) -> dict
     names = sorted(docs)
     if tier == "quick":
         names = [n for n in names if n.split(":")[1] in ("nested", "allof", "params", "responses")]
-    kinds = list(BAD_SCHEMAS) + list(BAD_OPERATIONS) + ["shares_ref_then_bad", "bad_sibling_method"]
+    kinds = list(BAD_SCHEMAS) + list(BAD_OPERATIONS) + EXTRA_KINDS
     wit, n = [], 0
     for name in names:
         for kind in kinds:
-            if kind == "bad_sibling_method":
+            if kind in ("bad_sibling_method", "bad_overridden_pathitem_param"):
                 if not name.startswith("endpoint:"):
                     continue
                 positions = list(range(len(docs[name].get("paths", {})))) if tier == "thorough" or name.endswith(("responses", "bodies")) else [rnd.randint(0, 5)]
@@ -404,7 +446,7 @@ def bad_pieces(tier: str = "quick", known: list | None = None, **_: Any) -> dict
                 positions = [0, 1, 99] if tier == "thorough" else ([0, rnd.randint(1, 5)] if kind == "shares_ref_then_bad" else [rnd.randint(0, 5)])
             for pos in positions:
                 for dep in ((False, True) if kind in BAD_SCHEMAS else (False,)):
-                    if kind == "shares_ref_then_bad" and not name.startswith("model:"):
+                    if kind in ("shares_ref_then_bad", "bad_inline_name_collision") and not name.startswith("model:"):
                         continue
                     n += 1
                     probs = bad_piece_one(docs[name], kind, pos, dep)
